@@ -51,6 +51,11 @@ type Exec struct {
 	dryDepth  int
 	topFrame  *Frame
 	aim       *Clause
+	origins   map[int]*epochOrigin // aim mode: where the heaps of an epoch came from
+	heapTypes map[string]types.Type
+	curMod    *aimMod
+	aimAlt    []string
+	frames    []*Frame
 	topLocs   []Loc // modifies clause of the function under verification, evaluated at entry (nil: no frame)
 }
 
@@ -92,12 +97,20 @@ func (ex *Exec) H(st *PState, name string, s Sort) string {
 	if t, ok := st.heap[name]; ok {
 		if !ex.vc.declared[t] && strings.HasPrefix(t, "H") && !strings.Contains(t, "!") {
 			ex.vc.Declare(t, s) // lazily created symbol whose declaration was rolled back by a dry run
+			if ex.origins != nil {
+				if e := epochOfSym(t); e >= 0 {
+					ex.originAxiom(e, name, s, t)
+				}
+			}
 		}
 		return t
 	}
 	ex.hsorts[name] = s
 	sym := ex.vc.Declare(fmt.Sprintf("H%d_%s", st.epoch, sanitize(name)), s)
 	st.heap[name] = sym
+	if ex.origins != nil {
+		ex.originAxiom(st.epoch, name, s, sym)
+	}
 	return sym
 }
 
@@ -112,6 +125,9 @@ func (ex *Exec) heapOfType(t types.Type) (string, Sort) {
 		return "A:" + string(es), ArrS(SInt, ArrS(SInt, es))
 	}
 	s := ex.reg.SortOf(t)
+	if ex.heapTypes != nil {
+		ex.heapTypes["H:"+string(s)] = t
+	}
 	return "H:" + string(s), ArrS(SInt, s)
 }
 
@@ -235,6 +251,9 @@ func (ex *Exec) lvOf(v Val) *LValue {
 func (ex *Exec) newFrame(fn *ssa.Function) *Frame {
 	f := &Frame{ex: ex, fn: fn, vals: map[ssa.Value]Val{}, exit: map[*ssa.BasicBlock]*PState{}, names: map[string][]ssa.Value{}}
 	f.contract = ex.P.ContractFor(fn)
+	if ex.aim != nil {
+		f.contract = nil // aim mode: ordinary contracts (loop invariants of other properties) play no part
+	}
 	return f
 }
 
@@ -389,6 +408,13 @@ func (f *Frame) mergeStates(edges []inEdge) *PState {
 		st.epoch = edges[0].st.epoch
 	} else {
 		st.epoch = ex.newEpoch()
+		if ex.origins != nil {
+			o := &epochOrigin{merge: true, guards: gs}
+			for _, e := range edges {
+				o.edges = append(o.edges, e.st)
+			}
+			ex.origins[st.epoch] = o
+		}
 	}
 	names := map[string]bool{}
 	for _, e := range edges {
